@@ -2429,6 +2429,7 @@ def label_binding_rule(prog, res, rule='label-binding'):
     f = prog.fn('ezc3d::DataNS::Data::Data', nparams=1)
     R = Renderer(f)
     found = {}
+    names_kind = {}
     wrong = []
     for fn_, sub in _helper_family(prog, [f]):
         Rf = Renderer(fn_)
@@ -2450,6 +2451,8 @@ def label_binding_rule(prog, res, rule='label-binding'):
                     continue
                 if Rf.render(th[0]['args'][0]) == '%s[local:%s]' % (names, i):
                     found[outer[6:]] = fn_.loc(n['id'])
+                    cls_ = str(th[0]['callee'].get('class', ''))
+                    names_kind[outer[6:]] = 'POINT' if cls_.endswith('::Point') else ('ANALOG' if cls_.endswith('::Channel') else None)
                 else:
                     wrong.append('%s: element %s is named %s' % (fn_.loc(n['id']), i, Rf.render(th[0]['args'][0])))
     # the same logic behind a helper:  x.name(H(names, i, ...))  with  H: if (idx < labels.size()) return labels[idx]; <generated>
@@ -2493,9 +2496,17 @@ def label_binding_rule(prog, res, rule='label-binding'):
                     if not mc:
                         continue
                     op_, k_ = mc.group(2), int(mc.group(3))
+                    own_count = {'POINT': ('nb3dPoints', '_nb3dPoints'), 'ANALOG': ('nbAnalogs', '_nbAnalogsMeasurement', '_nbAnalogByFrame')}
+                    other = [g_ for g_, cs_ in own_count.items() if g_ != m.group(1) and any(c_ in mc.group(1) for c_ in cs_)]
+                    if other and not any(c_ in mc.group(1) for c_ in own_count.get(m.group(1), ())):
+                        wrong.append('%s: %s:LABELS is fetched only when %s %s %d, a count of the %s section: a file with %s but no %s keeps generated names' %
+                                     (f.loc(an['id']), m.group(1), mc.group(1), op_, k_, other[0], 'points' if m.group(1) == 'POINT' else 'channels', 'channels' if m.group(1) == 'POINT' else 'points'))
                     lets_one = {'>': 1 > k_, '>=': 1 >= k_, '!=': 1 != k_, '==': False}[op_]
                     if not lets_one:
                         wrong.append('%s: %s:LABELS is fetched only when %s %s %d: a file with exactly one point/channel keeps generated names' % (f.loc(an['id']), m.group(1), mc.group(1), op_, k_))
+    for k_, kind_ in names_kind.items():
+        if kind_ and src.get(k_) and src[k_] != kind_:
+            wrong.append('%s: the list `%s` that names the %s comes from %s:LABELS' % (found[k_], k_, 'points' if kind_ == 'POINT' else 'channels', src[k_]))
     want = {'POINT', 'ANALOG'}
     have = {src.get(k) for k in found}
     if want <= have and not wrong:
